@@ -332,7 +332,11 @@ func stressWorker(b *Bed, listener string, w int, r *gen.R, o *stressOpts, ups [
 				c.Close()
 			}
 		}()
+		silentBatches := 0
 		for i := 0; i < o.PerWorker; i += window {
+			if silentBatches >= 3 { // three batches in a row without a single matching response: the 9 s waits add nothing
+				break
+			}
 			if c == nil {
 				var err error
 				c, err = dnsclient.DialStream("", b.L[listener], tc)
@@ -377,6 +381,11 @@ func stressWorker(b *Bed, listener string, w int, r *gen.R, o *stressOpts, ups [
 			}
 			seen = len(fr)
 			atomic.AddInt64(&res.Timeouts, int64(len(batch)-len(got)))
+			if len(got) == 0 {
+				silentBatches++
+			} else {
+				silentBatches = 0
+			}
 			if e, _, _ := c.State(); e != nil {
 				c.Close()
 				c = nil
